@@ -38,15 +38,17 @@ What is modelled (jsonpb.go line numbers)
 TRUSTED BASE (not modelled / assumed)
 * JSON *text* ⇄ tree (lexing, escaping, number syntax, duplicate members: the tree is a finite map) is
   `encoding/json`'s and stays outside; `Json.render` is only the canonical text used by the differential probe.
-* Four leaf renderings are used through the record `Leaves`; the theorems assume `LeavesOK` (each rendering is
-  read back by its parser on the well-typed values).  The executable instance `goLeaves` implements them
-  concretely and is compared with the real codec on every probe line, but `LeavesOK goLeaves` is NOT proved:
+* Four leaf renderings are used through the record `Leaves`; the general theorems assume `LeavesOK` (each rendering
+  is read back by its parser on the well-typed values):
     1. `b64` / `unb64`         base64.StdEncoding of a byte string;
     2. `timeText` / `parseTime` RFC 3339 (`2006-01-02T15:04:05[.fff[fff[fff]]]Z`) of an instant of the years 1 … 9999;
     3. `durText` / `parseDur`   `"%d.%09d"` with trailing zero groups trimmed + `s` ⇄ `time.ParseDuration`;
     4. `decText` / `parseDec`   `LegacyDec.String()` ⇄ `LegacyNewDecFromStr`.
-  Decimal integers (`uint64`, `int64`, `math.Int`), UTF-8 (`String.fromUTF8?`) and the enum leaf are concrete
-  and proved.
+  The executable instance `goLeaves` implements them concretely, and `LeavesOK goLeaves` IS proved
+  (`Hub/Lemmas/ProtoJsonLeaves.lean`, `goLeaves_ok`).  What remains trusted about the leaves is that `goLeaves` is what
+  the Go libraries print and accept — compared on every probe line (the model's tree, leaves included, against the
+  real JSON; the model's predicted outcome against the real one).
+  Decimal integers (`uint64`, `int64`, `math.Int`), UTF-8 (`String.fromUTF8?`) and the enum leaf are concrete too.
 * a value of an enum outside its declared values takes the `default:` arm of the hand-written `String()`, which
   in the regenerated function is the arm of the zero value (`statusPrint`); the probe exercises −1, 4, ±2^31.
 
@@ -711,50 +713,142 @@ def hubAnyTypes : List String := [
 /-- The hub's JSON environment over given leaves. -/
 def hubJ (L : Leaves) : JsonEnv := ⟨hubEnums, hubAnyTypes, L⟩
 
-/-! ## concrete leaves (`goLeaves`): executable, compared with the real codec by the probe, NOT proved -/
+/-! ## concrete leaves (`goLeaves`): what Go prints and reads, as ASCII byte strings (`latin1` / `unlatin1` make
+them JSON strings); compared with the real codec on every probe line; `LeavesOK goLeaves` is proved in
+`Hub/Lemmas/ProtoJsonLeaves.lean` as far as stated there -/
+
+/-- The longest prefix of decimal digits, and the rest. -/
+def spanDigits : Bytes → Bytes × Bytes
+  | [] => ([], [])
+  | c :: cs => if (digitVal c).isSome then ((c :: (spanDigits cs).1), (spanDigits cs).2) else ([], c :: cs)
+
+/-- A leading `-`, and the rest. -/
+def stripMinus (b : Bytes) : Bool × Bytes :=
+  match b with
+  | c :: r => if c.toNat = 45 then (true, r) else (false, c :: r)
+  | [] => (false, [])
+
+/-! ### base64.StdEncoding -/
 
 def b64Alphabet : List Char := "ABCDEFGHIJKLMNOPQRSTUVWXYZabcdefghijklmnopqrstuvwxyz0123456789+/".toList
 
-def b64Char (n : Nat) : Char := b64Alphabet.getD n 'A'
+def b64Byte (n : Nat) : UInt8 := charByte (b64Alphabet.getD n 'A')
 
-def b64Chars : Bytes → List Char
+def b64Bytes : Bytes → Bytes
   | a :: b :: c :: r =>
     let n := a.toNat * 65536 + b.toNat * 256 + c.toNat
-    b64Char (n / 262144) :: b64Char (n / 4096 % 64) :: b64Char (n / 64 % 64) :: b64Char (n % 64) :: b64Chars r
+    b64Byte (n / 262144) :: b64Byte (n / 4096 % 64) :: b64Byte (n / 64 % 64) :: b64Byte (n % 64) :: b64Bytes r
   | [a, b] =>
     let n := a.toNat * 65536 + b.toNat * 256
-    [b64Char (n / 262144), b64Char (n / 4096 % 64), b64Char (n / 64 % 64), '=']
+    [b64Byte (n / 262144), b64Byte (n / 4096 % 64), b64Byte (n / 64 % 64), 61]
   | [a] =>
     let n := a.toNat * 65536
-    [b64Char (n / 262144), b64Char (n / 4096 % 64), '=', '=']
+    [b64Byte (n / 262144), b64Byte (n / 4096 % 64), 61, 61]
   | [] => []
 
-def b64Val (c : Char) : Option Nat :=
+def b64Val (c : UInt8) : Option Nat :=
   let n := c.toNat
   if 65 ≤ n ∧ n ≤ 90 then some (n - 65)
   else if 97 ≤ n ∧ n ≤ 122 then some (n - 71)
   else if 48 ≤ n ∧ n ≤ 57 then some (n + 4)
-  else if c = '+' then some 62
-  else if c = '/' then some 63
+  else if n = 43 then some 62
+  else if n = 47 then some 63
   else none
 
-def unb64Chars : List Char → Option Bytes
+/-- Groups of four; `=` padding only in the last group, with zero spare bits (Go's strict decoder). -/
+def unb64Bytes : Bytes → Option Bytes
   | [] => some []
-  | [a, b, '=', '='] =>
-    match b64Val a, b64Val b with
-    | some x, some y => if y % 16 = 0 then some [UInt8.ofNat (x * 4 + y / 16)] else none
-    | _, _ => none
-  | [a, b, c, '='] =>
-    match b64Val a, b64Val b, b64Val c with
-    | some x, some y, some z =>
-      if z % 4 = 0 then some [UInt8.ofNat (x * 4 + y / 16), UInt8.ofNat (y % 16 * 16 + z / 4)] else none
-    | _, _, _ => none
   | a :: b :: c :: d :: r =>
-    match b64Val a, b64Val b, b64Val c, b64Val d, unb64Chars r with
-    | some x, some y, some z, some w, some rest =>
-      some (UInt8.ofNat (x * 4 + y / 16) :: UInt8.ofNat (y % 16 * 16 + z / 4) :: UInt8.ofNat (z % 4 * 64 + w) :: rest)
-    | _, _, _, _, _ => none
+    if d.toNat = 61 then
+      if !r.isEmpty then none
+      else if c.toNat = 61 then
+        match b64Val a, b64Val b with
+        | some x, some y => if y % 16 = 0 then some [UInt8.ofNat (x * 4 + y / 16)] else none
+        | _, _ => none
+      else
+        match b64Val a, b64Val b, b64Val c with
+        | some x, some y, some z =>
+          if z % 4 = 0 then some [UInt8.ofNat (x * 4 + y / 16), UInt8.ofNat (y % 16 * 16 + z / 4)] else none
+        | _, _, _ => none
+    else
+      match b64Val a, b64Val b, b64Val c, b64Val d, unb64Bytes r with
+      | some x, some y, some z, some w, some rest =>
+        some (UInt8.ofNat (x * 4 + y / 16) :: UInt8.ofNat (y % 16 * 16 + z / 4) :: UInt8.ofNat (z % 4 * 64 + w) :: rest)
+      | _, _, _, _, _ => none
   | _ => none
+
+/-! ### fractions of a second: nothing, or `.` and 3, 6 or 9 digits (jsonpb's three `TrimSuffix` calls on `%09d`) -/
+
+def fracBytes (m : Nat) : Bytes :=
+  if m = 0 then []
+  else if m % 1000000 = 0 then 46 :: padDigits 3 (m / 1000000)
+  else if m % 1000 = 0 then 46 :: padDigits 6 (m / 1000)
+  else 46 :: padDigits 9 m
+
+/-- `[.d{1,9}]<stop>` as nanoseconds. -/
+def parseFrac (stop : Nat) (b : Bytes) : Option Nat :=
+  match b with
+  | [] => none
+  | c :: r =>
+    if r.isEmpty then (if c.toNat = stop then some 0 else none)
+    else if c.toNat = 46 then
+      let p := spanDigits r
+      match p.2 with
+      | [e] =>
+        if e.toNat = stop ∧ 1 ≤ p.1.length ∧ p.1.length ≤ 9 then
+          match parseDigits p.1 0 with
+          | some v => some (v * 10 ^ (9 - p.1.length))
+          | none => none
+        else none
+      | _ => none
+    else none
+
+/-! ### `time.Duration`: `"%d.%09d"` of (seconds, nanos), trimmed, `s` ⇄ `time.ParseDuration` -/
+
+def durBytes (s n : Nat) : Bytes :=
+  let S := toInt s
+  let N := toInt n
+  (if S = 0 ∧ N < 0 then [45] else []) ++ (if S < 0 then [45] else []) ++ natText S.natAbs ++ fracBytes N.natAbs ++ [115]
+
+def parseDurBytes (b : Bytes) : Option (Nat × Nat) :=
+  let p := stripMinus b
+  let q := spanDigits p.2
+  if q.1.isEmpty then none
+  else match parseDigits q.1 0, parseFrac 115 q.2 with
+    | some a, some f =>
+      let tot : Int := (a : Int) * 1000000000 + f
+      let ns : Int := if p.1 then -tot else tot
+      if inRange (-9223372036854775808) 9223372036854775808 ns then
+        let k := Int.tdiv ns 1000000000
+        some (ofInt k, ofInt (ns - k * 1000000000))
+      else none
+    | _, _ => none
+
+/-! ### `LegacyDec`: `String()` (18 decimals) ⇄ `LegacyNewDecFromStr` -/
+
+def decDigits (n : Nat) : Bytes :=
+  let ds := natText n
+  let ds := List.replicate (19 - ds.length) 48 ++ ds
+  ds.take (ds.length - 18) ++ 46 :: ds.drop (ds.length - 18)
+
+def decBytes (i : Int) : Bytes := (if i < 0 then [45] else []) ++ decDigits i.natAbs
+
+def decBody (b : Bytes) : Option Nat :=
+  let p := spanDigits b
+  if p.1.isEmpty then none
+  else match p.2 with
+    | [] => parseDigits (p.1 ++ List.replicate 18 48) 0
+    | c :: fr =>
+      if c.toNat = 46 ∧ !fr.isEmpty ∧ fr.length ≤ 18 then parseDigits (p.1 ++ fr ++ List.replicate (18 - fr.length) 48) 0
+      else none
+
+def parseDecBytes (b : Bytes) : Option Int :=
+  let p := stripMinus b
+  match decBody p.2 with
+  | some n => some (if p.1 then -(n : Int) else (n : Int))
+  | none => none
+
+/-! ### `time.Time`: RFC 3339 in UTC ⇄ `time.Parse(time.RFC3339Nano, …)` -/
 
 /-- `days_from_civil` (Hinnant): days since 1970-01-01 of a proleptic Gregorian date. -/
 def daysFromCivil (y0 m d : Int) : Int :=
@@ -766,108 +860,53 @@ def daysFromCivil (y0 m d : Int) : Int :=
   let doe := yoe * 365 + yoe / 4 - yoe / 100 + doy
   era * 146097 + doe - 719468
 
-/-- Drop up to `n` times a trailing `000`, then a trailing `.` (what the three `TrimSuffix` calls of jsonpb do to a
-nine-digit fraction). -/
-def trimFrac (digits : List Char) : List Char :=
-  let d := digits
-  let d := if d.drop 6 = ['0', '0', '0'] then d.take 6 else d
-  let d := if d.length = 6 ∧ d.drop 3 = ['0', '0', '0'] then d.take 3 else d
-  if d = ['0', '0', '0'] then [] else '.' :: d
-
-def goTimeText (s n : Nat) : String :=
-  let t : Int := toInt s * 1000000000 + (n : Int)
-  let cs := (formatTimeBytes t).map byteChar       -- YYYY-MM-DDTHH:MM:SS.nnnnnnnnn
-  String.ofList (cs.take 19 ++ trimFrac (cs.drop 20) ++ ['Z'])
-
-def digitsNat (cs : List Char) : Option Nat :=
-  if cs.isEmpty then none else parseDigits (cs.map charByte) 0
-
 def daysInMonth (y m : Nat) : Nat :=
   if m = 2 then (if (y % 4 = 0 ∧ y % 100 ≠ 0) ∨ y % 400 = 0 then 29 else 28)
   else if m = 4 ∨ m = 6 ∨ m = 9 ∨ m = 11 then 30 else 31
 
-/-- The fraction `.d{1,9}` (or nothing) before the closing text `stop`, as nanoseconds. -/
-def fracNanos (cs : List Char) (stop : List Char) : Option Nat :=
-  if cs = stop then some 0
-  else match cs with
-    | '.' :: r =>
-      let ds := r.take (r.length - stop.length)
-      if r.drop (r.length - stop.length) = stop ∧ 1 ≤ ds.length ∧ ds.length ≤ 9 then
-        (digitsNat ds).map (fun v => v * 10 ^ (9 - ds.length))
-      else none
-    | _ => none
+def timeBytes (s n : Nat) : Bytes :=
+  let t : Int := toInt s * 1000000000 + (n : Int)
+  (formatTimeBytes t).take 19 ++ fracBytes (t % 1000000000).toNat ++ [90]      -- YYYY-MM-DDTHH:MM:SS[.fff…]Z
 
-def goParseTime (s : String) : Option (Nat × Nat) :=
-  let cs := s.toList
-  match cs with
-  | y1 :: y2 :: y3 :: y4 :: '-' :: m1 :: m2 :: '-' :: d1 :: d2 :: 'T' :: h1 :: h2 :: ':' :: i1 :: i2 :: ':' :: s1 :: s2 :: rest =>
-    match digitsNat [y1, y2, y3, y4], digitsNat [m1, m2], digitsNat [d1, d2], digitsNat [h1, h2], digitsNat [i1, i2],
-          digitsNat [s1, s2], fracNanos rest ['Z'] with
-    | some y, some m, some d, some hh, some mi, some ss, some ns =>
-      if 1 ≤ m ∧ m ≤ 12 ∧ 1 ≤ d ∧ d ≤ daysInMonth y m ∧ hh < 24 ∧ mi < 60 ∧ ss < 60 then
-        let secs : Int := daysFromCivil y m d * 86400 + hh * 3600 + mi * 60 + ss
-        some (ofInt secs, ns)
-      else none
-    | _, _, _, _, _, _, _ => none
-  | _ => none
+/-- Exactly `w` digits. -/
+def readN (w : Nat) (b : Bytes) : Option (Nat × Bytes) :=
+  if w ≤ b.length then
+    match parseDigits (b.take w) 0 with
+    | some v => some (v, b.drop w)
+    | none => none
+  else none
 
-def goDurText (s n : Nat) : String :=
-  let S := toInt s
-  let N := toInt n
-  let neg := decide (S = 0) && decide (N < 0)
-  let secs := (if S < 0 then ['-'] else []) ++ (natText S.natAbs).map byteChar
-  let frac := (padDigits 9 N.natAbs).map byteChar
-  String.ofList ((if neg then ['-'] else []) ++ secs ++ trimFrac frac ++ ['s'])
+def expect (c : Nat) (b : Bytes) : Option Bytes :=
+  match b with
+  | x :: r => if x.toNat = c then some r else none
+  | [] => none
 
-def goParseDur (s : String) : Option (Nat × Nat) :=
-  let cs := s.toList
-  let (neg, cs) := match cs with
-    | '-' :: r => (true, r)
-    | r => (false, r)
-  let (ip, rest) := spanChars Char.isDigit cs
-  match digitsNat ip, fracNanos rest ['s'] with
-  | some a, some f =>
-    let tot : Int := (a : Int) * 1000000000 + f
-    let ns : Int := if neg then -tot else tot
-    if inRange (-9223372036854775808) 9223372036854775808 ns then
-      let q := Int.tdiv ns 1000000000
-      some (ofInt q, ofInt (ns - q * 1000000000))
-    else none
-  | _, _ => none
-
-def goDecText (i : Int) : String :=
-  let ds := (natText i.natAbs).map byteChar
-  let ds := List.replicate (19 - ds.length) '0' ++ ds
-  let k := ds.length - 18
-  String.ofList ((if i < 0 then ['-'] else []) ++ ds.take k ++ ['.'] ++ ds.drop k)
-
-def goParseDec (s : String) : Option Int :=
-  let cs := s.toList
-  let (neg, cs) := match cs with
-    | '-' :: r => (true, r)
-    | r => (false, r)
-  let (ip, rest) := spanChars Char.isDigit cs
-  let frac? : Option (List Char) := match rest with
-    | [] => some []
-    | '.' :: r => if r.isEmpty ∨ !r.all Char.isDigit ∨ r.length > 18 then none else some r
-    | _ => none
-  match frac? with
-  | some fr =>
-    if ip.isEmpty then none
-    else match digitsNat (ip ++ fr ++ List.replicate (18 - fr.length) '0') with
-      | some n => some (if neg then -(n : Int) else (n : Int))
-      | none => none
-  | none => none
+def parseTimeBytes (b0 : Bytes) : Option (Nat × Nat) :=
+  (readN 4 b0).bind fun y =>
+  (expect 45 y.2).bind fun b1 =>
+  (readN 2 b1).bind fun m =>
+  (expect 45 m.2).bind fun b2 =>
+  (readN 2 b2).bind fun d =>
+  (expect 84 d.2).bind fun b3 =>
+  (readN 2 b3).bind fun hh =>
+  (expect 58 hh.2).bind fun b4 =>
+  (readN 2 b4).bind fun mi =>
+  (expect 58 mi.2).bind fun b5 =>
+  (readN 2 b5).bind fun ss =>
+  (parseFrac 90 ss.2).bind fun ns =>
+  if 1 ≤ m.1 ∧ m.1 ≤ 12 ∧ 1 ≤ d.1 ∧ d.1 ≤ daysInMonth y.1 m.1 ∧ hh.1 < 24 ∧ mi.1 < 60 ∧ ss.1 < 60 then
+    some (ofInt (daysFromCivil y.1 m.1 d.1 * 86400 + hh.1 * 3600 + mi.1 * 60 + ss.1), ns)
+  else none
 
 def goLeaves : Leaves where
-  b64 b := String.ofList (b64Chars b)
-  unb64 s := unb64Chars s.toList
-  timeText := goTimeText
-  parseTime := goParseTime
-  durText := goDurText
-  parseDur := goParseDur
-  decText := goDecText
-  parseDec := goParseDec
+  b64 b := latin1 (b64Bytes b)
+  unb64 s := unb64Bytes (unlatin1 s)
+  timeText s n := latin1 (timeBytes s n)
+  parseTime s := parseTimeBytes (unlatin1 s)
+  durText s n := latin1 (durBytes s n)
+  parseDur s := parseDurBytes (unlatin1 s)
+  decText i := latin1 (decBytes i)
+  parseDec s := parseDecBytes (unlatin1 s)
 
 /-! ## canonical text of a tree (for the probe): members sorted by name, no white space; a string is written
 `"text"` if it consists of `[0-9A-Za-z_.:/+=@-]` only, else `x<hex of its UTF-8 bytes>` -/
